@@ -22,7 +22,8 @@ type ConcCase struct {
 	Keys    []string  `json:"keys"`
 	Init    []Op      `json:"init"`
 	Clients [][]Op    `json:"clients"`
-	Final   bool      `json:"final"` // read every key back after the concurrent phase
+	Final   bool      `json:"final"`            // read every key back after the concurrent phase
+	Reopen  bool      `json:"reopen,omitempty"` // then Close, Open and read everything again: it must equal what was read before Close
 }
 
 // HEvent is one completed operation of the history. Call and Ret are global scheduler event
@@ -40,12 +41,13 @@ type HEvent struct {
 }
 
 type concRun struct {
-	c       ConcCase
-	w       *World
-	a       *actors
-	hist    []HEvent
-	written map[uint64]Op // write id -> op
-	infra   string
+	c          ConcCase
+	w          *World
+	a          *actors
+	hist       []HEvent
+	written    map[uint64]Op // write id -> op
+	infra      string
+	reopenViol *Violation
 }
 
 func (cr *concRun) identify(key string, b []byte) (uint64, string) {
@@ -165,6 +167,29 @@ func concExec(c ConcCase, choices []int32) (RunOut, *concRun) {
 			}
 			cr.do(0, Op{K: "keys"})
 		}
+		if c.Reopen && c.Final {
+			before := cr.finalState()
+			if err := w.Close(); err != nil {
+				cr.infra = "close: " + err.Error()
+				return
+			}
+			if err := w.Open(); err != nil {
+				cr.reopenViol = &Violation{Class: "reopen-differs", Signature: c.Prop + "|reopen-differs|open-failed", Detail: "Open after Close failed: " + err.Error()}
+				return
+			}
+			cr.a.db = w.DB
+			n := len(cr.hist)
+			for _, k := range c.Keys {
+				cr.do(0, Op{K: "get", Key: k})
+			}
+			cr.do(0, Op{K: "keys"})
+			after := cr.stateOf(cr.hist[n:])
+			cr.hist = cr.hist[:n] // the post-restart reads are not part of the concurrent history
+			if before != after {
+				cr.reopenViol = &Violation{Class: "reopen-differs", Signature: c.Prop + "|reopen-differs|after-concurrent-history",
+					Detail: "after the concurrent phase the quiescent database read\n  " + before + "\nafter Close and Open it reads\n  " + after}
+			}
+		}
 		if err := w.Close(); err != nil {
 			cr.infra = "close: " + err.Error()
 		}
@@ -191,8 +216,36 @@ func concExec(c ConcCase, choices []int32) (RunOut, *concRun) {
 	if res.TimerFires > 0 {
 		out.Probes["timer-fired-during-run"] = res.TimerFires
 	}
-	finishStatus(&out, res, c.Prop, nil, "conc")
+	finishStatus(&out, res, c.Prop, cr.reopenViol, "conc")
 	return out, cr
+}
+
+// finalState renders the final read-back (the last len(Keys)+1 history entries of client 0).
+func (cr *concRun) finalState() string {
+	n := len(cr.c.Keys) + 1
+	if len(cr.hist) < n {
+		return ""
+	}
+	return cr.stateOf(cr.hist[len(cr.hist)-n:])
+}
+
+func (cr *concRun) stateOf(evs []HEvent) string {
+	s := ""
+	for _, e := range evs {
+		switch e.Op.K {
+		case "get":
+			if e.Class != "" {
+				s += fmt.Sprintf("%q=%s ", e.Op.Key, e.Class)
+			} else if e.Foreign != "" {
+				s += fmt.Sprintf("%q=<%s> ", e.Op.Key, e.Foreign)
+			} else {
+				s += fmt.Sprintf("%q=#%d ", e.Op.Key, e.ValID)
+			}
+		case "keys":
+			s += fmt.Sprintf("keys=%q", e.Keys)
+		}
+	}
+	return s
 }
 
 // overlaps counts pairs of operations of different clients on one key that overlap in
